@@ -13,8 +13,8 @@
 #include <unistd.h>
 #include "ms_sched.h"
 
-enum { OP_NONE = 0, OP_START, OP_LOCK, OP_UNLOCK, OP_WAIT, OP_REACQ, OP_BCAST, OP_CREATE, OP_JOIN, OP_EXIT };
-static const char* OPN[] = {"none", "start", "lock", "unlock", "cond_wait", "reacquire", "broadcast", "create", "join", "exit"};
+enum { OP_NONE = 0, OP_START, OP_LOCK, OP_UNLOCK, OP_WAIT, OP_REACQ, OP_BCAST, OP_CREATE, OP_JOIN, OP_EXIT, OP_SIGNAL, OP_WOKEN };
+static const char* OPN[] = {"none", "start", "lock", "unlock", "cond_wait", "reacquire", "broadcast", "create", "join", "exit", "signal", "woken-by-signal"};
 const char* ms_opname(int op) { return OPN[op]; }
 enum { ST_FREE = 0, ST_RUNNABLE, ST_CONDBLOCKED, ST_FINISHED };
 
@@ -25,6 +25,7 @@ static struct { const void* addr; unsigned waiters; } C[8]; static int nC = 0;
 static const int* g_prefix; static int g_nprefix, g_pos, g_fd, g_steps, g_limit;
 static uint64_t (*g_state_cb)(void);
 static ms_rec g_rec[MS_MAXREC]; static int g_nrec;
+static int g_choice_kind = 0;   /* 0: which thread runs next, 1: which waiter a signal wakes (distinguishes the two choice points of one signal) */
 
 static int mtx(const void* a) { for (int i = 0; i < nM; i++) if (M[i].addr == a) return i; M[nM].addr = a; M[nM].owner = -1; return nM++; }
 static int cnd(const void* a) { for (int i = 0; i < nC; i++) if (C[i].addr == a) return i; C[nC].addr = a; C[nC].waiters = 0; return nC++; }
@@ -36,6 +37,7 @@ static uint64_t sched_state(void) {
   for (int i = 0; i < nM; i++) h = mix(h, (uint64_t)(M[i].owner + 2));
   for (int i = 0; i < nC; i++) h = mix(h, C[i].waiters);
   /* which thread is running is deliberately not part of the state: the set of enabled operations, hence the futures, do not depend on it */
+  h = mix(h, (uint64_t)g_choice_kind);
   if (g_state_cb) h = mix(h, g_state_cb());
   return h;
 }
@@ -166,5 +168,21 @@ int ms_cond_broadcast(pthread_cond_t* c) {
   for (int k = 0; k < nthr; k++) if (C[i].waiters & (1u << k)) T[k].status = ST_RUNNABLE;
   C[i].waiters = 0; return 0;
 }
-int ms_cond_signal(pthread_cond_t* c) { return ms_cond_broadcast(c); }
+/* pthread_cond_signal wakes ONE waiter, and POSIX does not say which: with several waiters this is a choice point of its own */
+int ms_cond_signal(pthread_cond_t* c) {
+  point(OP_SIGNAL, c, __builtin_return_address(0));
+  int i = cnd(c); uint8_t w[MS_MAXT]; int n = 0;
+  for (int k = 0; k < nthr; k++) if (C[i].waiters & (1u << k)) w[n++] = k;
+  if (n == 0) return 0;
+  int idx = 0;
+  if (n >= 2) {
+    if (g_pos < g_nprefix) { idx = g_prefix[g_pos]; if (idx < 0 || idx >= n) { finish(MS_DIVERGED); _exit(3); } }
+    g_pos++;
+    g_choice_kind = 1;
+    if (g_nrec < MS_MAXREC) { ms_rec* r = &g_rec[g_nrec++]; r->state = sched_state(); r->nen = n; memcpy(r->en, w, n); r->chosen = idx; r->running_enabled = 0; for (int k = 0; k < n; k++) r->ops[k] = OP_WOKEN; }
+    g_choice_kind = 0;
+  }
+  T[w[idx]].status = ST_RUNNABLE; C[i].waiters &= ~(1u << w[idx]);
+  return 0;
+}
 int ms_setaffinity(int pid, size_t sz, const void* set) { (void)pid; (void)sz; (void)set; return 0; }
